@@ -22,6 +22,10 @@ GLOBAL_ASSUMPTIONS = [
     "no asynchronous exception arrives between two statements; termination is not proved (partial correctness)",
     "field type tags in /verif/specs are trusted typing assumptions on heap reads",
     "== on values of statically unknown type is structural/identity equality",
+    "dict and set keys are compared by value identity: hashing, __hash__/__eq__ of key objects and unhashable keys are not modelled",
+    "threads are not modelled: every function is verified as sequential code; recursion goes through the function's own contract",
+    "a comprehension whose element expression constructs an object or has a fresh result is over-approximated (length/domain, class of the new objects; values unknown)",
+    "obligations get instances of their own assumptions added before they are sent to the solver (DESIGN.md 11.1): consequences, not new assumptions",
 ]
 
 
